@@ -18,7 +18,7 @@ import (
 
 type Addr [20]byte
 
-func (a Addr) Hex() string { return hex.EncodeToString(a[:]) }
+func (a Addr) Hex() string   { return hex.EncodeToString(a[:]) }
 func (a Addr) Bytes() []byte { return append([]byte(nil), a[:]...) }
 func ToAddr(b []byte) Addr {
 	var a Addr
@@ -118,15 +118,15 @@ type MVoter struct {
 }
 
 type MProp struct {
-	ID      string
-	Start   int64
-	End     int64
-	Apply   int64
-	OptType int32
-	Options [][]byte
-	Voters  map[Addr]*MVoter
-	Total   int64
-	Major   int // index of winning option once frozen, else -1
+	ID       string
+	Start    int64
+	End      int64
+	Apply    int64
+	OptType  int32
+	Options  [][]byte
+	Voters   map[Addr]*MVoter
+	Total    int64
+	Major    int // index of winning option once frozen, else -1
 	FrozenAt int64
 }
 
@@ -190,16 +190,18 @@ type Model struct {
 	SlashBurn    *big.Int
 	EvmBurn      *big.Int
 
-	StakeSeq   int
-	AllStakes  []*MStake // every stake ever created (pointer shared with Delegs/Frozen while alive)
-	Refunded   map[int]bool
-	PropOrder  []string
-	Executed   map[string]int64 // tx bytes (hex of hash) -> height of success
-	Snaps      map[int64]*Snapshot
-	Contracts  []Addr // contract addresses in creation order (top-level deployments)
-	Deployed   map[Addr]bool // addresses created by successful deployment transactions
-	GenesisInFlight int      // genesis stakes that were unbonding at the start or the end of the current block
-	ChainID    string
+	StakeSeq        int
+	AllStakes       []*MStake // every stake ever created (pointer shared with Delegs/Frozen while alive)
+	Refunded        map[int]bool
+	PropOrder       []string
+	Executed        map[string]int64 // tx bytes (hex of hash) -> height of success
+	Snaps           map[int64]*Snapshot
+	Contracts       []Addr        // contract addresses in creation order (top-level deployments)
+	Deployed        map[Addr]bool // addresses created by successful deployment transactions
+	Inner           map[Addr]bool // contracts created by contracts
+	Destroyed       map[Addr]bool // contracts that self-destructed
+	GenesisInFlight int           // genesis stakes that were unbonding at the start or the end of the current block
+	ChainID         string
 }
 
 func NewModel(chainID string, gov GovP) *Model {
@@ -214,7 +216,7 @@ func NewModel(chainID string, gov GovP) *Model {
 		Delegs: map[Addr]*MDeleg{}, Claims: map[Addr]*big.Int{},
 		Props: map[string]*MProp{}, FrozenProps: map[string]*MProp{},
 		GenesisTotal: new(big.Int), Withdrawn: new(big.Int), SlashBurn: new(big.Int), EvmBurn: new(big.Int),
-		Refunded: map[int]bool{}, Executed: map[string]int64{}, Snaps: map[int64]*Snapshot{}, Deployed: map[Addr]bool{},
+		Refunded: map[int]bool{}, Executed: map[string]int64{}, Snaps: map[int64]*Snapshot{}, Deployed: map[Addr]bool{}, Inner: map[Addr]bool{}, Destroyed: map[Addr]bool{},
 	}
 }
 
@@ -225,7 +227,7 @@ func (m *Model) AddBalance(a Addr, v *big.Int) {
 	m.W.AddBalance(common.Address(a), v)
 }
 func (m *Model) SubBalance(a Addr, v *big.Int) { m.W.SubBalance(common.Address(a), v) }
-func (m *Model) IsContract(a Addr) bool       { return len(m.W.GetCode(common.Address(a))) > 0 }
+func (m *Model) IsContract(a Addr) bool        { return len(m.W.GetCode(common.Address(a))) > 0 }
 
 func (m *Model) Claim(a Addr) *big.Int {
 	if c, ok := m.Claims[a]; ok {
